@@ -107,8 +107,8 @@ def sortedAt (idx : Nat) (vs : List Val) : Val := (C07.kthSmallest vs idx).getD 
 def rankPixel (m : Mode) (rank : Nat) (vA vOut : C08.View) (fp : List (List Int)) (i : Nat) : List RStep :=
   let s := rankSamples m vA fp (unravelI vA.shape i)
   let n := s.length
-  (enumFrom 0 s).map (fun js =>
-    (⟨2, (js.1 : Int), (match js.2 with | some a => [⟨.inp 0, a⟩] | none => []), fun vs => vs.headD 0⟩ : RStep)) ++
+  (List.range n).map (fun (j : Nat) =>
+    (⟨2, (j : Int), (match s.getD j none with | some a => [⟨.inp 0, a⟩] | none => []), fun vs => vs.headD 0⟩ : RStep)) ++
   (List.range n).map (fun (j : Nat) => (⟨3, (j : Int), [⟨.own 2, (j : Int)⟩], fun vs => vs.headD 0⟩ : RStep)) ++
   (List.range n).map (fun (j : Nat) =>
     (⟨2, (j : Int), (List.range n).map (fun (l : Nat) => ⟨.own 3, (l : Int)⟩), sortedAt j⟩ : RStep)) ++
